@@ -451,6 +451,38 @@ theorem plugin_next_checking_period_is_fresh (s : State) (inv : s.Inv) :
   rw [ht] at this
   exact List.eq_nil_of_length_eq_zero this
 
+/-- `FinalReport` counts and lists the SAME period, the enabled one (regenerated by C07's translator) -/
+theorem final_report_counts_what_it_lists :
+    Gen.LeakCode.finalCountPeriod = Gen.LeakCode.finalReportPeriod ∧ Gen.LeakCode.finalReportPeriod = .enabled := by decide
+
+/-- `FinalReport(n)` is empty exactly when `n` records were allocated while enabled and are still outstanding; otherwise it
+    is the report of exactly those records: each listed once, their number is the count that was compared with `n`, and
+    "no leaks" only when none is outstanding. -/
+theorem final_report_exact (s : State) (inv : s.Inv) (n : Nat) :
+    (pluginFinal s n = none ↔ (s.nodes.filter (Spec.inPeriod .enabled)).length = n) ∧
+    (∀ p, pluginFinal s n = some p →
+      reportedLeaks s p = s.nodes.filter (Spec.inPeriod .enabled) ∧
+      (reportedLeaks s p).length = totalMemoryLeaks s .enabled ∧
+      (reportedLeaks s p = [] ↔ ∀ m ∈ s.nodes, Spec.inPeriod .enabled m = false)) := by
+  have hc : ofPluginPeriod Gen.LeakCode.finalCountPeriod = .enabled := by decide
+  have hr : ofPluginPeriod Gen.LeakCode.finalReportPeriod = .enabled := by decide
+  unfold pluginFinal
+  rw [hc, hr, total_eq_card]
+  constructor
+  · by_cases h : (s.nodes.filter (Spec.inPeriod .enabled)).length = n <;> simp [h]
+  · intro p hp
+    by_cases h : (s.nodes.filter (Spec.inPeriod .enabled)).length = n
+    · simp [h] at hp
+    · simp only [bne_iff_ne, ne_eq, h, not_false_eq_true, if_true, Option.some.injEq] at hp
+      subst hp
+      have hi := (iteration_enumerates s inv .enabled).1
+      refine ⟨hi, ?_, ?_⟩
+      · rw [hi]
+      · rw [hi, List.filter_eq_nil_iff]
+        constructor
+        · intro hall m hm; simpa using hall m hm
+        · intro hall m hm; simp [hall m hm]
+
 /-! ## non-vacuity: a concrete history with three blocks in one bucket, a release from the middle of the
 chain, a stage release and a report -/
 
